@@ -164,3 +164,29 @@ fn variant_payload_tuple<'de>(ev: &mut dyn Events<'de>, cfg: Cfg, len: usize, vi
 #[verifier::external_body]
 fn variant_payload_struct<'de>(ev: &mut dyn Events<'de>, cfg: Cfg, fields: &'static [&'static str], visitor: MapVis) -> (r: Result<PayVal, Error>)
 { unimplemented!() }
+
+// ---- deserialize_enum: notation dispatch (the enum visitor is opaque) ----
+/// `simple_tagged_enum_name(raw_tag, tag)`: string surgery on the raw tag (std); an uninterpreted function here
+uninterp spec fn sp_tagged_name(raw_tag: Option<CowStr<'_>>, tag: SfTag) -> Option<Seq<char>>;
+/// `variants.contains(&name.as_str())`
+uninterp spec fn sp_is_variant(variants: &'static [&'static str], name: Seq<char>) -> bool;
+#[verifier::external_body]
+fn variants_contain(variants: &'static [&'static str], name: &String) -> (r: bool) ensures r == sp_is_variant(variants, name@) { unimplemented!() }
+/// `tag_name != _name`
+#[verifier::external_body]
+fn string_ne_str(a: &String, b: &str) -> (r: bool) ensures r == (a@ != b@) { unimplemented!() }
+uninterp spec fn sp_looks_non_string_ev(value: Seq<char>, style: ScalarStyle) -> bool;
+uninterp spec fn vis_enum_plain<'de>(v: MapVis, variant: Seq<char>, map_mode: bool, variant_location: Location, rest: Seq<Ev<'de>>, cfg: Cfg) -> Result<MapVisVal, Error>;
+uninterp spec fn vis_enum_tagged<'de>(v: MapVis, variant: Seq<char>, variant_location: Location, payload: Seq<Ev<'de>>, cfg: Cfg) -> Result<MapVisVal, Error>;
+/// `visitor.visit_enum(ea)`
+#[verifier::external_body]
+fn visit_enum_ea<'de, 'e>(visitor: MapVis, ea: EA<'de, 'e>) -> (r: Result<MapVisVal, Error>)
+    ensures r == vis_enum_plain(visitor, ea.variant@, ea.map_mode, ea.variant_location, old(ea.ev).rest(), ea.cfg),
+{ unimplemented!() }
+/// `visitor.visit_enum(tagged_ea)`
+#[verifier::external_body]
+fn visit_enum_tagged<'de>(visitor: MapVis, ea: TaggedEA<'de>) -> (r: Result<MapVisVal, Error>)
+    ensures r == vis_enum_tagged(visitor, ea.variant@, ea.variant_location, ea.replay.rest(), ea.cfg),
+{ unimplemented!() }
+/// `s.clone()` on a String
+#[verifier::external_body] fn string_clone(s: &String) -> (r: String) ensures r@ == s@ { s.clone() }
